@@ -888,19 +888,26 @@ func (m *MmsTables) ReplaceFiles(name string, oldFiles, newFiles []TSSPFile, isO
 	verifhook.Yield("ReplaceFiles.beforeLock")
 	fs.lock.Lock()
 	defer fs.lock.Unlock()
-	// remove old files
+	if m.isClosed() || m.isCompMergeStopped() {
+		// nothing changed in memory yet; the compact log lets the next start-up finish the replacement
+		return ErrCompStopped
+	}
+	// The replacement is committed on disk (log written, new files renamed). The in-memory list must follow it as a
+	// whole: a failing deletion must not leave a list without the old files AND without the new ones.
+	var delErr error
 	for _, f := range oldFiles {
-		if m.isClosed() || m.isCompMergeStopped() {
-			return ErrCompStopped
-		}
 		fs.deleteFile(f)
-		if err = m.deleteFiles(f); err != nil {
-			return
+		if e := m.deleteFiles(f); e != nil && delErr == nil {
+			delErr = e
 		}
 	}
 	// add new files
 	fs.files = append(fs.files, newFiles...)
 	sort.Sort(fs)
+	if delErr != nil {
+		// keep the compact log: the next start-up deletes the old files that are still there
+		return delErr
+	}
 
 	lock := fileops.FileLockOption(*m.lock)
 	if err = fileops.Remove(logFile, lock); err != nil {
